@@ -56,7 +56,7 @@ def generate(rng, tier):
     ctxs += [[gen.EOS], [V[0], gen.EOS, V[0]]]
     ctxs = ctxs[:70 if tier == "quick" else 120]
     return {"property": ID, "kind": "short", "grammar": ab, "contexts": ctxs, "schedules": scheds,
-            "query_order_seed": rng.getrandbits(32),
+            "query_order_seed": rng.getrandbits(32), "prelude": rng.choice([None, None, 0, 1, 2, 3]),
             "backends": ["earleylm", "rescaledlm", "ckylm", "earley_ntw", "icky_ntw"]}
 
 
@@ -161,6 +161,12 @@ def _execute_short(sc):
     canon = gen.canon(ab)
     out.sig = []
     out.nontrivial = not gen.trivial(ab)
+    if sc.get("prelude") is not None:
+        try:
+            gen.prelude(int(sc["prelude"]))
+            out.probe("prelude_other_vocabulary")
+        except Exception:
+            out.probe("prelude_raised")
     for si, s in enumerate(sc["schedules"]):
         apply_schedule(s)
         chaos.note_event(f"schedule {si}")
@@ -275,6 +281,22 @@ def _execute_short(sc):
         for ci in order[:25]:
             ctx = sc["contexts"][ci]
             cctx = tuple(tmap.get(a, a) for a in ctx)
+            if gen.EOS in cctx and all(t in V or t == gen.EOS for t in cctx):
+                # nothing follows an end-of-sequence: the chain-rule probability of
+                # any sequence with an interior EOS is zero
+                for be in ("earleylm", "rescaledlm", "ckylm"):
+                    if be not in objs:
+                        continue
+                    ok, got = guarded(out, be, lambda: objs[be](cctx + (gen.EOS,)), sig={"backend": be, "q": "chain-eos"})
+                    ok2, got2 = guarded(out, be, lambda: objs[be].p_next_seq((), cctx + (gen.EOS,)),
+                                        sig={"backend": be, "q": "p_next_seq-eos"})
+                    out.evals += 2
+                    out.probe("interior_eos_sequences")
+                    for nm, o, g in (("call", ok, got), ("p_next_seq", ok2, got2)):
+                        if o and float(g) != 0.0:
+                            out.violation(f"lm:interior-eos:{be}", sig={"backend": be, "q": nm}, string=list(ctx),
+                                          got=repr(float(g)), want="0", schedule=si)
+                continue
             if gen.EOS in cctx or any(t not in V for t in cctx) or Zs <= 0:
                 continue
             want = inside(cctx) / Zs
@@ -369,8 +391,30 @@ def _execute_long(sc):
         for be in sc["backends"]:
             if be not in ("earleylm", "rescaledlm", "ckylm"):
                 continue
-            if be == "earleylm" and want_logw < -600:
-                continue  # the plain parser is expected to underflow there
+            if be in ("earleylm", "ckylm") and want_logw < -600:
+                # The plain parsers are expected to lose precision / underflow there.
+                # What the property still states for a viable context whose prefix
+                # weight is a (subnormal but) non-zero double: a distribution that
+                # is finite and sums to one.  Only that is checked, at the prefixes
+                # a^k (rlin, anbn) / b a^k (llin) whose weight q^k lies in the
+                # subnormal range.
+                if be == "earleylm" and name in ("rlin", "anbn", "llin"):
+                    ks = [k for k in range(1, len(cx) // 2) if -740.0 < k * math.log(q) < -712.0]
+                    ok, lm = guarded(out, be, lambda: _lm(be, cfg), sig={"phase": "construct"})
+                    for k in ks[:4] if ok else []:
+                        pre_ = (cx[:k] if name != "llin" else cx[:k + 1])
+                        ok2, p = guarded(out, be, lambda: lm.p_next(pre_), sig={"backend": be, "subnormal": True})
+                        out.evals += 1
+                        out.probe("subnormal_prefix_contexts")
+                        if not ok2:
+                            continue
+                        vals = [float(v) for v in p.values()]
+                        tot = sum(vals)
+                        if any(math.isnan(v) or math.isinf(v) for v in vals) or not (abs(tot - 1.0) <= 1e-6):
+                            out.violation(f"lm:long-subnormal:{be}", sig={"name": name}, position=k, total=repr(tot),
+                                          schedule=si)
+                            break
+                continue
             ok, lm = guarded(out, be, lambda: _lm(be, cfg), sig={"phase": "construct"})
             if not ok:
                 continue
